@@ -69,7 +69,7 @@ def _batches(ctx):
         for bg in ("16,17", "23,24", "31,33", "40", "47"):
             b.append((0, 8, bg))
         return b
-    return [(400, 5, "16,17,24,31,33")]
+    return [(1200, 5, "16,17,24,31,33")]
 
 
 def run(ctx):
